@@ -34,8 +34,8 @@ type SMT struct {
 	mu     sync.Mutex
 	decls  map[string]*Decl
 	order  []string
-	facts  []string          // background ground facts (about type constants etc.)
-	dist   map[string]bool   // constants of sort U that are pairwise distinct (type constants, string literals)
+	facts  []string        // background ground facts (about type constants etc.)
+	dist   map[string]bool // constants of sort U that are pairwise distinct (type constants, string literals)
 	nfresh int
 	defs   []string // define-fun lines (predicates)
 }
@@ -311,7 +311,7 @@ func arraySort(idx, elem string) string { return "(Array " + idx + " " + elem + 
 type Query struct {
 	Name    string
 	Assume  []string
-	Goal    string // query asks: Assume /\ not Goal satisfiable?  (Goal == "" : plain satisfiability of Assume = cover)
+	Goal    string   // query asks: Assume /\ not Goal satisfiable?  (Goal == "" : plain satisfiability of Assume = cover)
 	Watch   []string // terms whose model value we want
 	smtText string
 }
